@@ -27,7 +27,7 @@ CONSTANTS Ids,        \* identifiers usable as explicit entity ids (integers; th
           Prios,      \* explicit priorities offered to AddProcessor (integers); NoPrio ("not given") is always offered
           Dts,        \* dt values offered to Process
           MaxQ,       \* bound on postponed callbacks (guard)
-          Acts,       \* enabled action families: subset of {"create","create2","add","remove","delete","process","clear","toggle","probe","proc","fault"}
+          Acts,       \* enabled action families: subset of {"create","create2","add","remove","delete","process","clear","toggle","probe","proc","fault","ghost","inframe","probekill"}
           ReplaceBeforeIndex, AutoIdSkipsUsed, ImmediateDeleteNotifies, ClearKeepsSelf,
           RelayOnlyDeclared, CreateNotifiesReplaced, ClearDeadGuards, WalkVisitsOnce
 
@@ -387,6 +387,23 @@ Probe(tok) ==
     /\ ret' = <<"ok", 0, "-">>
     /\ UNCHANGED <<rows, index, dead, nextAuto, enabled, reg, selfReg, procs, pprio, pworld, bad>>
 
+\* C10 through a World: a listener of an ordinary event deletes, from inside its callback, another entity whose
+\* components listen to the same event.  The world held the only strong reference to them, so they are gone:
+\* each of them either received the event before the killer ran (iteration order: a choice) or never receives it.
+RECURSIVE AppendProbes(_, _, _)
+AppendProbes(lg, S, tok) == IF S = {} THEN lg ELSE LET x == CHOOSE y \in S : TRUE IN AppendProbes(Append(lg, <<"probe", x, tok>>), S \ {x}, tok)
+ProbeKiller(tok, c, e2) ==
+    /\ "probe" \in Acts /\ "probekill" \in Acts /\ enabled
+    /\ c \in reg /\ c \in Comps /\ "probe" \in Decl[c]
+    /\ e2 \in DOMAIN rows /\ \A t \in DOMAIN rows[e2] : rows[e2][t] # c
+    /\ LET victims == {rows[e2][t] : t \in DOMAIN rows[e2]} \cap ProbeTargets(reg)
+           others == ProbeTargets(reg) \ victims
+           w == DeleteNow(W0, e2) IN
+       \E S \in SUBSET victims :
+           Commit([w EXCEPT !.log = AppendProbes(@, others \cup S, tok)])
+    /\ ret' = <<"ok", 0, "-">>
+    /\ PK /\ UNCHANGED <<nextAuto, enabled, selfReg, procs, pprio, pworld, bad>>
+
 CompSeqs == {<<c>> : c \in Comps} \cup {<<c, d>> : <<c, d>> \in {p \in Comps \X Comps : p[1] # p[2]}}
 
 Next == \/ (\E id \in Ids \cup {NoEnt}, cs \in CompSeqs : CreateEntity(id, cs))
@@ -404,6 +421,7 @@ Next == \/ (\E id \in Ids \cup {NoEnt}, cs \in CompSeqs : CreateEntity(id, cs))
         \/ Clear
         \/ (\E b \in BOOLEAN : SetEnabled(b))
         \/ (\E tok \in {7} : Probe(tok))
+        \/ (\E tok \in {7}, c \in Comps, e2 \in Ids : ProbeKiller(tok, c, e2))
 
 Spec == Init /\ [][Next]_vars
 
